@@ -30,7 +30,11 @@ def mk(spec):
     Ty = T()
     name, params, required, inlist = spec
     cls = getattr(Ty, name)
-    if name == "OneOf":
+    if name == "OneOf" and params and str(params[0]).startswith("@"):
+        from ofxtools.models import i18n
+
+        c = cls(*getattr(i18n, params[0][1:]), required=required)  # one of the library's own token tables
+    elif name == "OneOf":
         c = cls(*params, required=required)
     elif name in ("Bool", "DateTime", "Time"):
         c = cls(required=required)
@@ -57,6 +61,9 @@ def all_specs():
                 out.append(("NagString", (L,), req, inlist))
             for toks in (("A",), ("A", "B"), ("0", "1", "100")):
                 out.append(("OneOf", toks, req, inlist))
+            if not inlist:
+                for table, key in (("@CURRENCY_CODES", "CURRENCY.cursym"), ("@LANG_CODES", "SONRQ.language"), ("@COUNTRY_CODES", "PAYEE.country")):
+                    out.append(("OneOf", (table, key), req, inlist))
             for L in (None, 1, 2, 3):
                 out.append(("Integer", (L,), req, inlist))
             for S in (None, 0, 1, 2, 4):
@@ -260,8 +267,35 @@ def do_string(rec, conv):
         must_reject(rec, conv.convert, bad, "convert", "wrong-type-accepted")
 
 
+_SNAP = {}
+
+
+def snapshot(key):
+    if not _SNAP:
+        import json
+        import os
+
+        with open(os.path.join(os.path.dirname(os.path.dirname(os.path.abspath(__file__))), "ref_enums.json")) as f:
+            _SNAP.update(json.load(f))
+    return _SNAP[key]
+
+
 def do_oneof(rec, conv):
     name, toks, req, inlist = rec.spec
+    if str(toks[0]).startswith("@"):
+        # an enumeration over one of the library's token tables: every token of the pinned table (vf/ref_enums.json) is in
+        # the domain; two neighbouring tokens run together, and other spellings, are not
+        snap = snapshot(toks[1])
+        for tk in snap:
+            write_read(rec, conv, tk)
+            read_canon(rec, conv, tk, tk)
+        now = set(snap)
+        for a, b in zip(snap, snap[1:]):
+            for f in (a + b, a.lower(), a + " "):
+                if f not in now:
+                    must_reject(rec, conv.convert, f, "convert", "foreign-token-accepted")
+                    must_reject(rec, conv.unconvert, f, "unconvert", "foreign-token-accepted")
+        return
     for tk in toks:
         write_read(rec, conv, tk)
         read_canon(rec, conv, tk, tk)
@@ -424,7 +458,7 @@ def run(ctx):
     cov = {
         "evaluations": tally.counts.get("evaluations", 0),
         "distinct_nontrivial": tally.counts.get("evaluations", 0),
-        "rule": f"{len(specs)} parameterisations (Bool; String/NagString length None,1,2,5; OneOf of 3 token sets; Integer length None,1,2,3; Decimal scale "
+        "rule": f"{len(specs)} parameterisations (Bool; String/NagString length None,1,2,5; OneOf of 3 token sets and of the library's currency / language / country tables; Integer length None,1,2,3; Decimal scale "
         "None,0,1,2,4; DateTime; Time; each x required x bare/ListElement) x whole small domain: all strings of length <= limit+1 over {a,&,<,e-acute,inner blank}; "
         "all integers in (-10^n,10^n) and the first values beyond; all decimals m*10^-s |m|<=300 s<=4 with texts using . and , signs, leading zeros; "
         "date-times/times over 6 zones x boundary values; entity texts; non-values; wrong Python types; None. Each (parameterisation, value/text, oracle) counted once",
